@@ -198,6 +198,12 @@ func (e *Term) writeTo(s *strings.Builder) {
 	switch e.Type {
 	case TermTypeIdentity:
 		s.WriteByte('.')
+		if len(e.SuffixList) > 0 {
+			// ". .[x]" != ".[x]"
+			if i := e.SuffixList[0].Index; i != nil && i.Name == "" && i.Str == nil {
+				s.WriteString(" .")
+			}
+		}
 	case TermTypeRecurse:
 		s.WriteString("..")
 	case TermTypeNull:
